@@ -141,7 +141,7 @@ def prefix_end(t):
 #       Vec::<u8>::push(b)                    appends the octet b
 #       String::push(ch)                      appends the UTF-8 encoding of ch: one octet (ch itself) for ch < U+0080, otherwise 2-4
 #                                             octets none of which is < 0x80 (so for `b as char` / char::from(b) with b >= 0x80 -
-#                                             the code point U+00bb - the two octets c2/c3 .., NOT b)
+#                                             the code point U+00NN, NN = b - the two octets c2/c3 .., NOT b)
 #       String::push_str(s), Vec::extend(s), Vec::extend_from_slice(s)      append the octets of s (a &str's octets are its UTF-8 encoding)
 #       String::from_utf8(v)                  keeps the octets of v (or fails); as_bytes / as_str / into_bytes / to_owned likewise
 # Reference semantics: every alias (`if let Some(out) = &mut output`, `output.as_mut().unwrap()`, a `&mut` parameter of a helper,
@@ -149,6 +149,7 @@ def prefix_end(t):
 
 ACC = ('bufref', 'acc')
 NONEMPTY = ('old', 'nonempty')
+EARLIER = ('old', 'earlier')        # whatever the earlier iterations have appended (possibly nothing)
 BUF_NO_EFFECT = ('reserve', 'reserve_exact', 'shrink_to_fit', 'shrink_to')
 BUF_READS = ('capacity', 'as_slice', 'first', 'last', 'get', 'contains', 'starts_with', 'ends_with', 'iter', 'chars', 'char_indices', 'bytes')
 NEW_BUF = ('alloc::vec::Vec::<T>::new', 'alloc::vec::Vec::<T>::with_capacity', 'alloc::string::String::new', 'alloc::string::String::with_capacity')
@@ -198,7 +199,7 @@ def item_empty(x):
         if all(n[0] == 'lit' and isinstance(n[1], int) and not isinstance(n[1], bool) for n in x[1:3]):
             return x[1][1] >= x[2][1]
         return None
-    if x[0] == 'seg':
+    if x[0] == 'seg' or x == EARLIER:
         return None
     return False         # a pushed octet; the encoding of a character; earlier content known to be non-empty
 
@@ -278,6 +279,29 @@ class BufInterp(absx.Interp):
                 outs.extend(self.call(callee_of(e) or ('<method %s>' % e.get('name')), vals, e, s))
             return outs
         return super().ev_MethodCall(e, st)
+    def ev_AssignOp(self, e, st):
+        # `s += x` on a buffer: for a String it is push_str (std: `impl AddAssign<&str> for String` "appends"); any other
+        # compound assignment to a buffer is a write without a model
+        if any(o.kind == 'val' and is_buf(o.val) for o in self.ev(e['l'], st)):
+            res, abn = self.seq([e['l'], e['r']], st)
+            outs = list(abn)
+            for (a, b), s in res:
+                if is_buf(a) and e['op'].replace('Assign', '') == 'Add' and hirq.strip_refs(e['l'].get('ty') or '') == STR_TY:
+                    outs.extend(buf_summary(self, 'alloc::string::String::push_str', [a, b], e, s))
+                else:
+                    outs.append(absx.Out('val', absx.UNIT, s.event(('buf-unmodelled', 'a compound assignment', e))))
+            return outs
+        return super().ev_AssignOp(e, st)
+    def assign(self, lhs, val, st, node):
+        # `*r = v` where r refers to a buffer: the buffer's content is replaced by v's (known when v is a buffer itself)
+        if lhs['k'] == 'Unary' and lhs.get('op') == 'Deref':
+            inner = hirq.peel_refs(lhs['e'])
+            cur = st.env.get(inner['bind']) if inner['k'] == 'Path' and inner.get('res') == 'local' else None
+            if cur is not None and is_buf(cur):
+                if is_buf(val) and st.heap.get(('buf', val[1])) is not None and st.heap.get(('buf', cur[1])) is not None:
+                    return [absx.Out('val', absx.UNIT, set_heap(st, ('buf', cur[1]), st.heap[('buf', val[1])]).event(('buf-write', 'replace', val, node)))]
+                return [absx.Out('val', absx.UNIT, st.event(('buf-unmodelled', 'an assignment through a reference', node)))]
+        return super().assign(lhs, val, st, node)
     def inline_call(self, cal, args, node, st):
         # a workspace helper is evaluated by an interpreter of this same kind: a `&mut` buffer handed to it is the same buffer
         # (absx.Interp.inline_call, with the class of the sub-interpreter the only difference)
@@ -525,8 +549,9 @@ class Escaper:
         return canon(st.heap[('buf', v[1])])
 
     def run_item(self, cls, started, pos=None):
-        """The loop body for one item of class cls, the output being empty (started) or unset (a lazy one, not started) before it:
-        [(path outcome, what the output holds afterwards - see content_after; a string if that cannot be read)].  With pos = (i, n)
+        """The loop body for one item of class cls, the output holding what the earlier iterations appended (started) or being unset (a lazy
+        one, not started) before it: [(path outcome, what this iteration has added - the content afterwards, see content_after, less
+        the earlier content, which must still be there; None = still unset; a string if that cannot be read)].  With pos = (i, n)
         the item's first octet is the i-th of an input of n octets: the index is that literal and every length taken of the input
         is n, so position tests are decided exactly however they are spelled (`i == 0`, `match i { 0 => .. }`, `i + 1 == len`,
         a hoisted `let len = ..`, a closure that captures it)."""
@@ -540,16 +565,26 @@ class Escaper:
             for x in self.inb:
                 env[x] = INPUT
             heap = dict(ent.st.heap)
-            heap[('buf', 'acc')] = ()
+            # a started output holds what the earlier iterations appended: one item of unknown extent, which this iteration must keep
+            heap[('buf', 'acc')] = (EARLIER,) if started else ()
             st0 = self.facts_of(cls, absx.St(env, heap, pc=ent.st.pc, ctr=ent.st.ctr))
             for kind, s0 in I.match(self.loop['pat'], self.item_of(self.walk[2], cls, pos, self.walk[3]), st0):
                 if kind == 'no':
                     continue
                 for o in I.ev(self.loop['body'], s0):
                     try:
-                        if any(e[0] == 'buf-unmodelled' for e in o.st.ev):
-                            raise Undecodable('the output is handed to %s, for which the rules have no model' % sorted({e[1] for e in o.st.ev if e[0] == 'buf-unmodelled'})[:2])
-                        res.append((o, self.content_after(o.st)))
+                        # a call that receives the output (or the Option that holds it) and has no model - every modelled one is
+                        # answered by a summary and leaves no 'call' event - may have written to it
+                        leaked = sorted({e[1] for e in o.st.ev[len(s0.ev):] if e[0] == 'buf-unmodelled'} |
+                                        {e[1] for e in o.st.ev[len(s0.ev):] if e[0] == 'call' and absx.leaves(('args',) + tuple(e[2]), lambda x: x == ACC)})
+                        if leaked:
+                            raise Undecodable('the output is handed to %s, for which the rules have no model' % leaked[:2])
+                        content = self.content_after(o.st)
+                        if started:
+                            if content is None or content[:1] != (EARLIER,) or EARLIER in content[1:]:
+                                raise Undecodable('what the output held before this item is not kept as it was: the output now holds %s' % describe_content(content))
+                            content = content[1:]
+                        res.append((o, content))
                     except Undecodable as x:
                         res.append((o, str(x)))
         return res
@@ -640,7 +675,7 @@ def describe_content(c):
             return 'the encoding of %s' % absx.fmt(x[1])
         if x[0] == 'lit' and isinstance(x[1], int) and not isinstance(x[1], bool):
             return '%02x' % x[1]
-        return 'earlier content' if x == NONEMPTY else absx.fmt(x)[:50]
+        return 'earlier content' if x in (NONEMPTY, EARLIER) else absx.fmt(x)[:50]
     return c if isinstance(c, str) else 'unset' if c is None else 'empty' if not c else 'non-empty' if c == (NONEMPTY,) else '[%s]' % ', '.join(one(x) for x in c)
 
 def own_octets(cls, idx, content):
